@@ -859,7 +859,12 @@ func (w *c08World) opRename(op *c08Op) {
 	if pl.self {
 		w.cnt["rename_onto_itself"]++
 		if pl.src.dir {
-			w.stop("unspecified-success:" + pl.exp.why)
+			// unspecified outcome; nothing is judged. Whatever the implementation
+			// did (leave it alone, or drop it like it does for files) is followed.
+			if _, err := w.fs.Stat(op.P); err != nil {
+				delete(pl.oparent.kids, pl.obase)
+				w.cnt["unspec:rename:directory-onto-itself:directory-gone"]++
+			}
 			return
 		}
 		// a file renamed onto itself: an ordinary filesystem leaves it alone
